@@ -313,9 +313,68 @@ fn handle(mode: &str, fields: &[&str]) -> String {
     }
 }
 
+/// `threads <T>`: all cases are read first; T threads are released by a barrier and each converts
+/// every input with `to_svg` (thread k starts at case k, so the very first, table-initialising
+/// calls race on different inputs); per case the outputs of all threads are compared
+fn threads_mode(t: usize) {
+    use std::sync::{Arc, Barrier};
+    let stdin = io::stdin();
+    let cases: Vec<(String, String)> = stdin
+        .lock()
+        .lines()
+        .map(|l| l.expect("line"))
+        .filter(|l| !l.trim().is_empty())
+        .map(|l| {
+            let mut it = l.trim_end().splitn(2, ' ');
+            let id = it.next().unwrap().to_string();
+            let input = unhex(it.next().unwrap_or("-"));
+            (id, input)
+        })
+        .collect();
+    let cases = Arc::new(cases);
+    let barrier = Arc::new(Barrier::new(t));
+    let mut handles = vec![];
+    for k in 0..t {
+        let cases = cases.clone();
+        let barrier = barrier.clone();
+        handles.push(std::thread::spawn(move || {
+            barrier.wait();
+            let n = cases.len();
+            let mut out: Vec<Option<String>> = vec![None; n];
+            for j in 0..n {
+                let i = (j + k) % n;
+                let input = cases[i].1.clone();
+                let r = panic::catch_unwind(move || svgbob::to_svg(&input));
+                out[i] = r.ok();
+            }
+            out
+        }));
+    }
+    let results: Vec<Vec<Option<String>>> = handles.into_iter().map(|h| h.join().expect("thread")).collect();
+    let stdout = io::stdout();
+    let mut o = stdout.lock();
+    for (i, (id, _)) in cases.iter().enumerate() {
+        let first = &results[0][i];
+        let same = results.iter().all(|r| &r[i] == first);
+        match (same, first) {
+            (true, Some(svg)) => writeln!(o, "{} ok {}", id, hex(svg)).unwrap(),
+            (true, None) => writeln!(o, "{} panic -", id).unwrap(),
+            (false, _) => writeln!(o, "{} differ", id).unwrap(),
+        }
+    }
+}
+
 fn main() {
     let args: Vec<String> = std::env::args().collect();
     let mode = args.get(1).cloned().unwrap_or_else(|| "lib".to_string());
+    if mode == "threads" {
+        if std::env::var("VERIF_PANIC_TRACE").is_err() {
+            panic::set_hook(Box::new(|_| {}));
+        }
+        let t: usize = args.get(2).and_then(|v| v.parse().ok()).unwrap_or(8);
+        threads_mode(t);
+        return;
+    }
     // keep panic messages off stderr unless asked
     if std::env::var("VERIF_PANIC_TRACE").is_err() {
         panic::set_hook(Box::new(|_| {}));
